@@ -30,6 +30,11 @@ def run(ck, build):
     if modecommon.nostate_rule(ck, build, "R-C08-NOSTATE", ("siv",), "the six SIV entry points"):
         return
     mod, fns, n = modecommon.run_mode(ck, build, ("siv",), RM, helper_fns=False, floor_obl=100)
+    ck.rule("R-C08-ABSORB", "premise of 'modified bodies and associated data are rejected': the shared absorb function (associated data, and the plaintext in the authentication pass) leaves a "
+            "state that is an injective function of the bytes of every segment (rank of the GF(2)-linear map the bytes enter by, or a concrete pair of inputs absorbed alike) - per path "
+            "class and for every size 0..24 as straight paths; a deviation made alike in both directions is invisible to the relational rules")
+    from . import aeadlib as _ael
+    _ael.absorb_injective_rule(ck, mod, "H/N0", "R-C08-ABSORB")
     # shape-independent and relational: the whole SIV round trip for every message length 0..80 as straight paths
     from . import duallib
     try:
